@@ -426,7 +426,15 @@ func keyshareHashRule(P *Program, R *Report) {
 				}
 			}
 		}
-		R.decide(rule, kKSUserComm+":hashed-is-returned", "one entry per builder in builder order; the slice that was hashed is the one returned for the second message", ok, "", P.Pos(fn.Pos()))
+		note := ""
+		if hc != nil {
+			if seq, sok := seqOf(callArgs(hc)[0]); sok {
+				note = seqString(seq)
+			} else {
+				note = "slice construction not recognised: " + desc(callArgs(hc)[0])
+			}
+		}
+		R.decide(rule, kKSUserComm+":hashed-is-returned", "one entry per builder in builder order; the slice that was hashed is the one returned for the second message", ok, note, P.Pos(fn.Pos()))
 	}
 	// the user's challenge uses the same Commit values through ChallengeWithRandomizers (C02.f roles)
 	if fn := mustFunc(P, R, rule, kKSUserResp); fn != nil {
